@@ -4,7 +4,7 @@
 (* against Pipeline.tla.  Each record of VERIF_DATA is one behaviour       *)
 (* executed on the REAL command in a real data directory:                  *)
 (*   [id, cfg: [I, N, C], T0, steps: <<event>>]                            *)
-(*   event = [a: "job" | "partial" | "extend", job, delete, task, stop,    *)
+(*   event = [a: "job" | "partial" | "extend", job, delete, via, task, stop,*)
 (*            trials, obs: [raised, files, totals, analysis]]              *)
 (* obs.files[t+1]  trials found in results_<t+1>.json.gz (-1 no file,      *)
 (*                 -2 unreadable / simulations of unequal length)          *)
@@ -37,7 +37,7 @@ Init == /\ tid \in 1..NRecs
 Consume == l <= Len(Recs[tid].steps) /\ l' = l + 1 /\ UNCHANGED tid
 
 StepJob == /\ Consume /\ Ev(tid, l).a = "job"
-           /\ P!RunJob(Ev(tid, l).job, Ev(tid, l).delete)
+           /\ P!RunJob(Ev(tid, l).job, Ev(tid, l).delete, Ev(tid, l).via)
            /\ doneJobs' = doneJobs \cup {Ev(tid, l).job}
 StepPartial == /\ Consume /\ Ev(tid, l).a = "partial"
                /\ P!PartialJob(Ev(tid, l).job, Ev(tid, l).task, Ev(tid, l).stop)
